@@ -10,6 +10,7 @@ structure Scn where
   k : Nat
   intervalMs : Nat
   count : Nat
+  kind : String := "ping"
 
 structure St where
   scns : List Scn := []
@@ -18,13 +19,17 @@ structure St where
 silent phase always ends in expiry, which is an abnormal end (will published). -/
 def modelOutcome (s : Scn) : String :=
   let d := deadline (effective s.k)
-  if s.intervalMs * 1000000 < d then "active=ok final=expired will=1 window=ok"
+  -- "silentsub": the subject only subscribes and then sends nothing (a third party publishes to it
+  -- every intervalMs): packets the broker SENDS do not count as activity
+  if s.kind == "silentsub" then "active=ok final=expired will=1 window=ok"
+  else if s.intervalMs * 1000000 < d then "active=ok final=expired will=1 window=ok"
   else "active=expired will=1 window=ok"
 
 /-- specification (property text): intervals shorter than K never expire; silence
 well over 1.5 K does; in between nothing is demanded. -/
 def specOutcome (s : Scn) : String :=
   if s.k == 0 then "*"
+  else if s.kind == "silentsub" then "active=ok final=expired will=1"
   else if s.intervalMs < s.k * 1000 then "active=ok final=expired will=1"
   else if 2 * s.intervalMs > 3 * s.k * 1000 + 600 then "active=expired will=1"
   else "*"
@@ -32,9 +37,9 @@ def specOutcome (s : Scn) : String :=
 def handle (st : St) (ws : List String) : St × String × String :=
   match ws with
   | ["reset"] => ({}, "reset", "reset")
-  | ["start", id, k, iv, cnt, _kind] =>
+  | ["start", id, k, iv, cnt, kind] =>
     match id.toNat?, k.toNat?, iv.toNat?, cnt.toNat? with
-    | some id, some k, some iv, some cnt => ({ st with scns := ⟨id, k, iv, cnt⟩ :: st.scns }, "started", "started")
+    | some id, some k, some iv, some cnt => ({ st with scns := ⟨id, k, iv, cnt, kind⟩ :: st.scns }, "started", "started")
     | _, _, _, _ => (st, "bad-op", "bad-op")
   | ["wait", id] =>
     match id.toNat?.bind (fun i => st.scns.find? (fun s => s.id == i)) with
